@@ -201,6 +201,8 @@ func RunSessionOpts(sc *Scenario, st map[string]*Station, r *Recorder, configure
 		var conn net.Conn = l.End(name)
 		if txRate > 0 { // a modem-like transmit buffer draining at txRate bytes per second
 			conn = &txEnd{End: l.End(name), rate: txRate}
+		} else if txRate < 0 {
+			conn = &txEnd{End: l.End(name), rate: -txRate, adversarial: true}
 		}
 		go func() {
 			var rt ret
